@@ -390,9 +390,9 @@ class LiftedKernel:
             exec(self.epi_code, body_ns)
 
             def finish():
-                for n in self.reductions:
-                    pass
-                return body_ns["__epilogue"]()
+                # outcome of a run = the value returned by the kernel and the final contents of its array arguments
+                # (a kernel may deliver its results through arrays handed in by the caller)
+                return body_ns["__epilogue"](), tuple(np.array(a, copy=True) for a in args if isinstance(a, np.ndarray))
         else:
             for k, v in zip(self.argnames, args):
                 rt.register(k, v)
@@ -404,7 +404,7 @@ class LiftedKernel:
             outs = [args[i] for i in outputs] if outputs is not None else args[-4:]
 
             def finish():
-                return tuple(np.array(o, copy=True) for o in outs)
+                return tuple(np.array(o, copy=True) for o in outs), ()
         return rt, threads, finish
 
 
@@ -412,7 +412,7 @@ class LiftedKernel:
 # explorer
 # ---------------------------------------------------------------------------
 class Execution:
-    __slots__ = ("choices", "points", "result", "trace", "writes")
+    __slots__ = ("choices", "points", "result", "arrays", "trace", "writes")
 
 
 def run_schedule(lk, args, prefix, nthreads=None, hot=None):
@@ -462,11 +462,17 @@ def run_schedule(lk, args, prefix, nthreads=None, hot=None):
         step += 1
     ex = Execution()
     ex.choices, ex.points, ex.trace = choices, points, rt.trace
-    ex.result = finish()
+    ex.result, ex.arrays = finish()
     return ex
 
 
+def canon_outcome(ex):
+    return canon_result(ex.result) + tuple(a.tobytes() for a in ex.arrays)
+
+
 def canon_result(res):
+    if res is None:
+        return (b"none",)
     if not isinstance(res, (tuple, list)):
         res = (res,)
     if isinstance(res, tuple) and res and isinstance(res[0], np.ndarray):
@@ -497,7 +503,7 @@ def explore(lk, args, bound, nthreads=None, max_exec=2_000_000, stop_on_diff=Fal
     for t, kind, lab, idx in ex0.trace:
         if kind == "W":
             wcount[(lab, idx)] = wcount.get((lab, idx), 0) + 1
-    ref = canon_result(ex0.result)
+    ref = canon_outcome(ex0)
     outcomes = {ref: []}
     nexec = 0
     capped = False
@@ -508,7 +514,7 @@ def explore(lk, args, bound, nthreads=None, max_exec=2_000_000, stop_on_diff=Fal
         x = run_schedule(lk, args, prefix, nthreads, hot=hot)
         nexec += 1
         maxpoints = max(maxpoints, len(x.points))
-        key = canon_result(x.result)
+        key = canon_outcome(x)
         if key not in outcomes:
             outcomes[key] = list(x.choices)
             if stop_on_diff:
@@ -524,7 +530,7 @@ def explore(lk, args, bound, nthreads=None, max_exec=2_000_000, stop_on_diff=Fal
                     continue
                 stack.append(x.choices[:i] + [alt])
     return {"executions": nexec, "outcomes": len(outcomes), "hot": sorted(hot), "racy": [list(map(str, r)) for r in racy[:12]],
-            "n_racy": len(racy), "points": maxpoints, "capped": capped, "reference": ex0.result,
+            "n_racy": len(racy), "points": maxpoints, "capped": capped, "reference": ex0.result, "reference_arrays": ex0.arrays,
             "witness": next((v for k, v in outcomes.items() if k != ref), None),
             "write_counts": wcount, "threads": len(ex0.points) and None}
 
@@ -560,7 +566,24 @@ def capture_prange_call(entry, args):
         raise LiftError(f"{entry.py_func.__name__}: no prange loop found in it or in the helpers it can call")
     box = {}
     saved = {}
+    # compiled helpers between the entry point and the loop (entry -> helper -> ... -> function with the prange loop) are run
+    # as Python source too, so that the call of the loop-carrying function is seen
+    reach = set(targets)
+    grew = True
+    while grew:
+        grew = False
+        for k, v in g.items():
+            if k not in reach and _is_dispatcher(v) and v is not entry and reach & set(v.py_func.__code__.co_names):
+                reach.add(k)
+                grew = True
     try:
+        for k in reach - set(targets):
+            saved[k] = g[k]
+
+            def passthrough(*a, __v=g[k], **kw):
+                return __v.py_func(*a, **kw)
+
+            g[k] = passthrough
         for k, v in targets.items():
             saved[k] = v
 
